@@ -670,15 +670,58 @@ class Gen:
         self.force.update({"obs_handle": self.last_handle(), "what": rng.choice(["FULL", "LIST", "STIM", "FULL"])})
         self.mk_obs(0)
 
+    def sc_three_levels(self):
+        """outer repeated block around a repeated block that holds two plain sub-circuits side by side"""
+        rng = self.rng
+        if self.n_qubits < 2:
+            return self.sc_nested_reps()
+        kids = []
+        for q in (0, 1):
+            self.force["reps"] = {"fixed": 1}
+            self.mk_new(0)
+            k = self.last_handle()
+            kids.append(k)
+            for _ in range(rng.randint(1, 2)):
+                self.force.update({"handle": k, "kind": rng.choice(["Wait", "Wait", "Rx180", "Ry90"]), "dur": {"fixed": rng.choice([0.5, 1.0, 2.0, 3.0, 5.0])}})
+                st_before = len(self.steps)
+                self.mk_add_op(0)
+                if len(self.steps) > st_before:
+                    self.steps[-1]["q"] = [q]
+                    # keep the shadow model in line with the forced qubit
+                    n = self.model.entries[k][-1]
+                    from sim.model import kind_channels
+                    n.ch = kind_channels(n.kind, [q], self.steps[-1].get("chan"))
+        self.force["reps"] = {"fixed": rng.choice([2, 2, 3])}
+        self.mk_new(0)
+        mid = self.last_handle()
+        for k in kids:
+            self.force.update({"parent": mid, "child": k})
+            self.mk_add_sub(0)
+        if rng.random() < 0.8:
+            self.force.update({"handle": mid, "kind": rng.choice(["Ry90", "Rx180", "Identity"])})
+            self.mk_add_op(0)
+            if self.steps[-1]["op"] == "ADD_OP" and self.steps[-1]["c"] == mid and rng.random() < 0.7:
+                self.steps[-1]["rel"] = ["FOLLOWED_BY", 0]
+                self.model.entries[mid][-1].rel = ("FOLLOWED_BY", self.model.entries[mid][0])
+        self.force["reps"] = {"fixed": rng.choice([2, 2, 3])}
+        self.mk_new(0)
+        outer = self.last_handle()
+        self.force.update({"parent": outer, "child": mid})
+        self.mk_add_sub(0)
+        self.force["handle"] = outer
+        self.mk_apply(0)
+        self.force.update({"obs_handle": self.last_handle(), "what": "FULL"})
+        self.mk_obs(0)
+
     SCENARIOS = {
         "C11": [(0.15, "sc_lib_apply_flatten")],
-        "C06": [(0.12, "sc_lib_apply_flatten"), (0.12, "sc_nested_reps"), (0.06, "sc_unroll_then_copy")],
+        "C06": [(0.10, "sc_lib_apply_flatten"), (0.10, "sc_nested_reps"), (0.06, "sc_unroll_then_copy"), (0.10, "sc_three_levels")],
         "C08": [(0.12, "sc_lib_apply_flatten"), (0.08, "sc_nested_reps")],
         "C07": [(0.12, "sc_lib_apply_flatten"), (0.05, "sc_nested_reps")],
-        "C05": [(0.15, "sc_unroll_then_copy"), (0.05, "sc_nested_reps")],
+        "C05": [(0.15, "sc_unroll_then_copy"), (0.05, "sc_nested_reps"), (0.06, "sc_three_levels")],
         "C02": [(0.12, "sc_nested_reps")],
         "C01": [(0.06, "sc_nested_reps"), (0.04, "sc_unroll_then_copy")],
-        "C03": [(0.05, "sc_nested_reps"), (0.05, "sc_unroll_then_copy"), (0.04, "sc_lib_apply_flatten")],
+        "C03": [(0.05, "sc_nested_reps"), (0.05, "sc_unroll_then_copy"), (0.04, "sc_lib_apply_flatten"), (0.03, "sc_three_levels")],
         "C04": [(0.05, "sc_nested_reps")],
         "C18": [(0.04, "sc_lib_apply_flatten")],
     }
